@@ -691,3 +691,102 @@ func loadOfCellHolding(v ssa.Value, ex *ssa.Extract) bool {
 	}
 	return false
 }
+
+// ruleLifecycleErrorsPropagate (mechanical sweep: `return err` -> `return nil` under `if err != nil`
+// in Start after open() failed, in close() after Listener.Close failed, survive the suite):
+// "after Start returns without error the server accepts connections on every enabled port" — so a
+// lifecycle function must not report success from inside the branch in which one of its steps is
+// known to have failed.
+func ruleLifecycleErrorsPropagate(c *Ctx, rid string) {
+	c.rule(rid, "in Server.Start/Stop/Restart and the error-returning framework functions they call (static calls, not goroutine bodies), no return with a nil error lies in a block dominated by the non-nil test of a step's error: a failed open/close/sweep is reported, not swallowed into success")
+	var roots []*ssa.Function
+	for _, n := range []string{"Start", "Stop", "Restart"} {
+		if f := c.P.Method(pkgRedis, "Server", n); f != nil {
+			roots = append(roots, f)
+		}
+	}
+	seen := map[*ssa.Function]bool{}
+	var scope []*ssa.Function
+	st := append([]*ssa.Function{}, roots...)
+	for len(st) > 0 {
+		f := st[len(st)-1]
+		st = st[:len(st)-1]
+		if f == nil || seen[f] || f.Blocks == nil || !inFramework(f) || fnPkgPath(f) != pkgRedis {
+			continue
+		}
+		seen[f] = true
+		res := f.Signature.Results()
+		if res.Len() == 0 || !isErrorType(res.At(res.Len()-1).Type()) {
+			continue
+		}
+		scope = append(scope, f)
+		allInstrs(f, func(ins ssa.Instruction) {
+			if call, ok := ins.(*ssa.Call); ok {
+				if cal := staticCallee(call.Common()); cal != nil {
+					st = append(st, cal)
+				}
+			}
+		})
+	}
+	sort.Slice(scope, func(i, j int) bool { return fnName(scope[i]) < fnName(scope[j]) })
+	n := 0
+	for _, f := range scope {
+		bad := ""
+		var at0 ssa.Instruction
+		for _, r := range returnsOf(f) {
+			n++
+			if len(r.Results) == 0 || !isNilConst(retOperand(r, len(r.Results)-1)) {
+				continue
+			}
+			for _, at := range factsAt(r.Block()) {
+				if at.Kind != "nil" || at.Pos || at.X == nil || !isErrorType(at.X.Type()) {
+					continue
+				}
+				src := strip(at.X)
+				if ex, ok := src.(*ssa.Extract); ok {
+					src = ex.Tuple
+				}
+				if call, ok := src.(*ssa.Call); ok {
+					bad = "success is returned at " + c.P.instrPos(r) + " although " + calleeName(call.Common()) + " is known to have failed there"
+					at0 = r
+				}
+			}
+		}
+		key := fnName(f) + "/errors-propagate"
+		if bad == "" {
+			c.ok(rid, key, c.P.pos(f.Pos()), "no success return under a failed step")
+		} else {
+			c.bad(rid, key, c.P.instrPos(at0), bad+": the caller is told the server is started (or stopped) when a listener was not opened (or closed)")
+		}
+	}
+	c.count("lifecycle-returns", n)
+	c.floor("lifecycle-returns", 8)
+}
+
+// ruleParserNumbersChecked (mechanical sweep: dropping the error test after strconv.Atoi in
+// nextBulkMessage survives the suite — "$abc" then parses as an empty bulk string instead of
+// being refused): every number the parser decodes from the wire is used only where the decoding
+// succeeded.
+func ruleParserNumbersChecked(c *Ctx, rid string, scope []*ssa.Function) {
+	c.rule(rid, "A5.i in the parser: every strconv.Atoi/ParseInt/ParseUint call in the parser scope has its error tested, and its number is used only under the nil test of that error: a malformed length is a protocol error, never the number 0")
+	n := 0
+	for _, f := range scope {
+		ord := 0
+		allInstrs(f, func(ins ssa.Instruction) {
+			call, ok := ins.(*ssa.Call)
+			if !ok || !nameIn(calleeName(call.Common()), "strconv.Atoi", "strconv.ParseInt", "strconv.ParseUint") {
+				return
+			}
+			n++
+			ord++
+			key := fmt.Sprintf("%s/wire-number#%d", fnName(f), ord)
+			if okE, why := errCheckedCall(call); okE {
+				c.ok(rid, key, c.P.instrPos(call), "number used only where the decoding succeeded")
+			} else {
+				c.bad(rid, key, c.P.instrPos(call), "a length or count decoded from the wire is used although the decoding may have failed (the value is then 0: a malformed header is accepted as an empty value): "+why)
+			}
+		})
+	}
+	c.count("parser-strconv-calls", n)
+	c.floor("parser-strconv-calls", 2)
+}
